@@ -169,6 +169,10 @@ func typeof(i interface{}) reflect.Type {
 func uuidExt(name string) (uuid, ext string) {
 	s := strings.SplitN(name, ".", 2)
 	uuid = s[0]
+	// a name without extension
+	if len(s) < 2 {
+		return
+	}
 	ext = fmt.Sprintf(".%s", s[1])
 	return
 }
